@@ -181,9 +181,10 @@ class ReleaserInit(Spec):
     properties = ("C04", "C20", "C10")
     inline = ("ladim.timekeeper.TimeKeeper.time2step",)
 
-    def __init__(self, has_mult):
+    def __init__(self, has_mult, sorted_table=True):
         self.has_mult = has_mult
-        self.name = f"ParticleReleaser.__init__[discrete, cold start, mult column {'given' if has_mult else 'defaulted'}]"
+        self.sorted_table = sorted_table  # False: the rows of the file may come in ANY order (e.g. a chronological file used for a reversed run)
+        self.name = f"ParticleReleaser.__init__[discrete, cold start, mult column {'given' if has_mult else 'defaulted'}{'' if sorted_table else ', file rows in any order'}]"
         spec = self
 
         def read_release_file(interp, args, kwargs):
@@ -201,9 +202,10 @@ class ReleaserInit(Spec):
         cx.assume(nrows >= 0)
         rev = t["time_reversal"]
         # the property's quantifier: rows sorted in simulation order
-        u = UnivFact(2, lambda a, b: z3.Implies(z3.And(a >= 0, a < b, b < nrows), z3.If(rev, row_time(a) >= row_time(b), row_time(a) <= row_time(b))), decls=[row_time_decl])
-        u.pairs = True
-        cx.univ.append(u)
+        if self.sorted_table:
+            u = UnivFact(2, lambda a, b: z3.Implies(z3.And(a >= 0, a < b, b < nrows), z3.If(rev, row_time(a) >= row_time(b), row_time(a) <= row_time(b))), decls=[row_time_decl])
+            u.pairs = True
+            cx.univ.append(u)
         state = Obj(None, dtypes=dict(pid="int", X="float"))
         a = Args(self=Obj("ladim.release.ParticleReleaser"), modules=dict(time=timer, grid=Obj(None), state=state), release_file="release.rls")
         return a
@@ -241,8 +243,8 @@ class ReleaserInit(Spec):
             # order of consumption = increasing step = simulation order of the distinct times
             asc_time_first = (B.order == "ascending-time" and not B.reversed)
             desc_time_first = (B.order == "ascending-time" and B.reversed)
-            sim_order = (B.order == "first-appearance" and not B.reversed)  # first appearance == simulation order for a sorted table
-            out.append(("C04/C10: the groups are in simulation order: ascending time forward, descending time reversed (the order update() consumes them)", z3.If(rev, z3.BoolVal(desc_time_first or sim_order), z3.BoolVal(asc_time_first or sim_order))))
+            sim_order = (B.order == "first-appearance" and not B.reversed and self.sorted_table)  # first appearance == simulation order ONLY for a table sorted in simulation order
+            out.append(("C04/C10/C14: the groups are in simulation order: ascending time forward, descending time reversed (the order update() consumes them), whatever the order of the file rows", z3.If(rev, z3.BoolVal(desc_time_first or sim_order), z3.BoolVal(asc_time_first or sim_order))))
         st = me.get("steps")
         okst = isinstance(st, MappedTimes) and isinstance(st.times, UniqueTimes) and st.times.table is df
         out.append(("C04: steps are the model steps of the distinct release times of the kept rows", okst))
@@ -273,6 +275,7 @@ class ReleaserInitRefuses(ReleaserInit):
 
 
 RELEASE_INIT_UNITS = [ReleaserInit(True), ReleaserInit(False), ReleaserInitRefuses()]
+RELEASE_ANY_ORDER = ReleaserInit(True, sorted_table=False)
 
 
 # ---------------------------------------------------------------- clean_position, read_release_file
